@@ -26,6 +26,8 @@ import (
 	"net/http"
 	"net/netip"
 	"os"
+	"os/exec"
+	"slices"
 	"path/filepath"
 	"regexp"
 	"runtime"
@@ -53,6 +55,7 @@ import (
 	"github.com/AdguardTeam/golibs/logutil/slogutil"
 	"github.com/AdguardTeam/golibs/netutil"
 	"github.com/miekg/dns"
+	"gopkg.in/yaml.v2"
 	"github.com/prometheus/client_golang/prometheus"
 	"github.com/quic-go/quic-go"
 )
@@ -526,7 +529,142 @@ func (e *c20Env) runSection(id int, sec, mode string) (ev *c20Event) {
 	default:
 		ev.Accepted = true
 	}
+	if !ev.Accepted && !ev.Crashed {
+		// what the harness does step by step above, the binary does in Main: the same file through the real
+		// entry point, in a child process (a rejected configuration ends it before anything is started)
+		outp, exited := c20RunMain(e.t, e.envs.ConfPath)
+		switch {
+		// (Main reports a rejected file through its panic handler: "recovered from panic err=<property: reason>";
+		// a crash is a run-time error of the Go runtime)
+		case strings.Contains(outp, "runtime error") || strings.Contains(outp, "nil pointer dereference") ||
+			strings.Contains(outp, "invalid memory address"):
+			ev.Crashed, ev.Stage = true, "main"
+			ev.Err = "cmd.Main with this file: " + c20Head(outp, 600)
+		case !exited:
+			e.t.Fatalf("section %s=%s: cmd.Main did not end with a rejected configuration: %s", sec, mode, c20Head(outp, 600))
+		}
+		ev.Ran = []string{"main"}
+	}
 	return ev
+}
+
+// runServers: the example with only the servers of the given protocols kept in its server group, and the
+// group's tls section kept or removed ("missing values" for list elements and for the section that only some
+// of them need).  An accepted file is taken through the start-up steps that are functions of the file alone.
+func (e *c20Env) runServers(id int, keep []string, tlsMode string) (ev *c20Event) {
+	ev = &c20Event{ID: id, Mut: []c20Mut{}, Named: []string{}, Unsafe: []string{}, Ran: []string{"not exercised"}, Ms: []int{},
+		Section: fmt.Sprintf("server_groups/servers=%s;tls=%s", strings.Join(keep, "+"), tlsMode)}
+	doc := yaml.MapSlice{}
+	if err := yaml.Unmarshal([]byte(strings.Join(e.yaml.lines, "\n")+"\n"), &doc); err != nil {
+		e.t.Fatal(err)
+	}
+	for i, it := range doc {
+		if it.Key != "server_groups" {
+			continue
+		}
+		grps := it.Value.([]any)
+		g := grps[0].(yaml.MapSlice)
+		var ng yaml.MapSlice
+		for _, f := range g {
+			switch f.Key {
+			case "tls":
+				if tlsMode == "removed" {
+					continue
+				}
+			case "servers":
+				var ns []any
+				for _, sv := range f.Value.([]any) {
+					for _, sf := range sv.(yaml.MapSlice) {
+						if sf.Key == "protocol" && slices.Contains(keep, sf.Value.(string)) {
+							ns = append(ns, sv)
+						}
+					}
+				}
+				f.Value = ns
+			}
+			ng = append(ng, f)
+		}
+		grps[0] = ng
+		doc[i].Value = grps[:1]
+	}
+	b, err := yaml.Marshal(doc)
+	if err != nil {
+		e.t.Fatal(err)
+	}
+	if err = os.WriteFile(e.envs.ConfPath, b, 0o600); err != nil {
+		e.t.Fatal(err)
+	}
+	stage := "parse"
+	crash := c20Recover("start-up", func() {
+		var c *configuration
+		c, err = parseConfig(e.envs.ConfPath)
+		if err != nil {
+			return
+		}
+		stage = "validate"
+		if err = c.validate(); err != nil {
+			return
+		}
+		stage = "env"
+		if err = e.envs.validateFromValidConfig(c); err != nil {
+			return
+		}
+		// what builder.initTLSManager and the server-group conversion compute from the file
+		stage = "startup"
+		_ = c.ServerGroups.collectSessTicketPaths()
+		stage = "accepted"
+	})
+	ev.Stage = stage
+	switch {
+	case crash != "":
+		ev.Crashed, ev.Err = true, crash
+	case err != nil:
+		ev.Err = c20Head(err.Error(), 500)
+		if strings.Contains(ev.Err, "tls") || strings.Contains(ev.Err, "servers") || strings.Contains(ev.Err, "server_groups") {
+			ev.Named = []string{"server_groups"}
+		}
+	default:
+		ev.Accepted, ev.Ran = true, []string{"startup"}
+	}
+	return ev
+}
+
+const c20MainChildEnv = "VERIF_C20_MAIN_CHILD"
+
+// TestVerifC20MainChild is not a test: with c20MainChildEnv set the test binary
+// IS the server binary.
+func TestVerifC20MainChild(t *testing.T) {
+	if os.Getenv(c20MainChildEnv) != "1" {
+		t.Skip("only used as a child process")
+	}
+	Main(nil)
+}
+
+func c20Head(s string, n int) string {
+	if len(s) > n {
+		return s[:n]
+	}
+	return s
+}
+
+// c20RunMain starts the real entry point with the configuration file and
+// returns its output and whether it ended by itself with a failure status.
+func c20RunMain(t testing.TB, confPath string) (outp string, exited bool) {
+	ctx, cancel := context.WithTimeout(context.Background(), 20*time.Second)
+	defer cancel()
+	cmd := exec.CommandContext(ctx, os.Args[0], "-test.run=^TestVerifC20MainChild$", "-test.count=1")
+	dir, err := os.MkdirTemp(os.Getenv("VERIF_SCRATCH"), "c20main")
+	if err != nil {
+		t.Fatal(err)
+	}
+	defer os.RemoveAll(dir)
+	cmd.Dir = dir
+	cmd.Env = []string{c20MainChildEnv + "=1", "PATH=" + os.Getenv("PATH"), "HOME=" + dir, "CONFIG_PATH=" + confPath,
+		"SENTRY_DSN=stderr", "FILTER_INDEX_URL=http://127.0.0.1:1/filters.json", "ADULT_BLOCKING_ENABLED=0",
+		"BLOCKED_SERVICE_ENABLED=0", "GENERAL_SAFE_SEARCH_ENABLED=0", "NEW_REG_DOMAINS_ENABLED=0", "SAFE_BROWSING_ENABLED=0",
+		"YOUTUBE_SAFE_SEARCH_ENABLED=0", "GOCOVERDIR=" + dir}
+	b, rerr := cmd.CombinedOutput()
+	return string(b), rerr != nil && ctx.Err() == nil
 }
 
 // ---------------------------------------------------------------- events
@@ -1458,10 +1596,25 @@ func TestVerifC20(t *testing.T) {
 	emit(nil)
 	// every section (mapping) of the example missing: set to null, or removed with everything below it.
 	// Whatever the verdict, it must be a verdict (accepted, or rejected naming the section), not a crash.
+	// (control of the child-process set-up: a file that is rejected for a value in a section that IS there
+	// must get as far as the validation of the file and be answered with the name of that value)
+	ctl := strings.Replace(strings.Join(e.yaml.lines, "\n")+"\n", "handle_timeout: ", "handle_timeout: 0s # ", 1)
+	if werr := os.WriteFile(e.envs.ConfPath, []byte(ctl), 0o600); werr != nil {
+		t.Fatal(werr)
+	}
+	if outp, exited := c20RunMain(t, e.envs.ConfPath); !exited || !strings.Contains(outp, "handle_timeout") {
+		t.Fatalf("control run of cmd.Main did not reach the validation of the file: exited=%v %s", exited, c20Head(outp, 800))
+	}
 	for _, sec := range e.yaml.sections() {
 		for _, mode := range []string{"null", "removed"} {
 			id++
 			out.Emit(e.runSection(id, sec, mode))
+		}
+	}
+	for _, keep := range [][]string{{"dns"}, {"dns", "dnscrypt"}, {"dnscrypt"}, {"tls"}, {"dns", "https", "quic"}, {"dns", "tls", "https", "quic", "dnscrypt"}} {
+		for _, tlsMode := range []string{"kept", "removed"} {
+			id++
+			out.Emit(e.runServers(id, keep, tlsMode))
 		}
 	}
 	// Replay / focus mode: VERIF_C20_FOCUS="field=class[:value],field=class" runs
